@@ -42,6 +42,9 @@ CHECKS = {
  "C14": ("enumeration of (key, aux, message length) triples through the signSchnorr hook and the public Sign under every reader delivery mode and every fault position, byte-for-byte against BIP-340 Sign; all key-derivation routes x representatives x parities",
          "Bounded exhaustive exploration of Schnorr signing and key derivation: 20 keys (both public-y parities) x 19 message lengths (0..1000, around SHA-256 block boundaries) x 5 aux values; signature bytes must equal the reference Sign, consume exactly 32 aux bytes, verify under reference and implementation; the four (key parity x nonce parity) classes are populated; reader faults after every j in 0..32; private/public key derivation routes expose the even-y point, its x, and a signing scalar d in {d', n-d'} consistent with it (field-access hook).",
          "Trusted: /verif/ref BIP-340.", "DESIGN.md §6 C14"),
+ "C15": ("grid enumeration of expand_message_xmd (DST x message x output lengths incl. oversize DSTs), uniform-bytes map for every length 32..64 over a field alphabet with the SWU exceptional inputs and (u + k*p) encodings, RO/NU suites with slice reuse, against an RFC 9380 reference in the section 6.6.2 form",
+         "Bounded exhaustive exploration of hash-to-curve: 900 (DST,msg,out) length triples byte-equal to the reference expand_message_xmd with inputs unmodified; ~12k uniform strings covering every length 32..64, both sgn0 parities, first/second SWU candidate and the exceptional u = +-sqrt(1/11), each as several u + k*p encodings, compared with iso_map(map_to_curve_simple_swu(u)) and (hook) with the intermediate E' point; isogeny poles flagged; RO and NU over 80 (DST,msg) pairs, each called three times from the same slices (purity).",
+         "Trusted: crypto/sha256, /verif/ref/h2c.go (RFC vectors reproduced; isogeny constants proved additive). The reference SWU shares no structure with the straight-line code under test.", "DESIGN.md §6 C15"),
 }
 
 PENDING_REASON = "check under construction in this round; not yet claimed (see DESIGN.md §6 for the planned bounded-exhaustive check)"
